@@ -6,7 +6,8 @@ from harness import sig_common as sc
 def run(ck):
     sc.run_property(ck, sc.oracle_C10)
     ck.run_fixed({"failed_subscription_leaves_nothing": "C10:dispatch-raised",
-                  "redispatched_event_is_stamped_again": "C10:stamp"})
+                  "redispatched_event_is_stamped_again": "C10:stamp",
+                  "one_stream_over_equal_owners": "C10:not-subscribed"})
 
 
 def replay(ck, obj):
